@@ -189,7 +189,15 @@ impl<T: BitRead> PackedRead for T {
     /// ITU-T X.691 | ISO/IEC 8825-2:2015, chapter 11.9.3
     #[inline]
     fn read_normally_small_length(&mut self) -> Result<u64, Error> {
-        self.read_normally_small_non_negative_whole_number()
+        // 11.9.3.4: the result is the length minus one (a normally small length is never zero)
+        if self.read_bit()? {
+            // more than 64: the length itself as unconstrained length determinant
+            self.read_length_determinant(None, None)?
+                .checked_sub(1)
+                .ok_or_else(|| ErrorKind::ValueNotInRange(0, 1, i64::MAX).into())
+        } else {
+            self.read_non_negative_binary_integer(None, Some(SMALL_NON_NEGATIVE_NUMBER - 1))
+        }
     }
 
     /// ITU-T X.691 | ISO/IEC 8825-2:2015, chapter 11.9.4
@@ -374,7 +382,7 @@ impl<T: BitRead> PackedRead for T {
         extensible: bool,
     ) -> Result<u64, Error> {
         if extensible && self.read_bit()? {
-            self.read_normally_small_length()?
+            self.read_normally_small_non_negative_whole_number()?
                 .checked_add(std_variants)
                 .ok_or_else(|| ErrorKind::ValueExceedsMaxInt.into())
         } else {
@@ -542,7 +550,16 @@ impl<T: BitWrite> PackedWrite for T {
     /// ITU-T X.691 | ISO/IEC 8825-2:2015, chapter 11.9.3
     #[inline]
     fn write_normally_small_length(&mut self, value: u64) -> Result<(), Error> {
-        self.write_normally_small_non_negative_whole_number(value)
+        // 11.9.3.4: `value` is the length minus one (a normally small length is never zero)
+        if value < SMALL_NON_NEGATIVE_NUMBER {
+            self.write_bit(false)?;
+            self.write_non_negative_binary_integer(None, Some(SMALL_NON_NEGATIVE_NUMBER - 1), value)
+        } else {
+            // more than 64: the length itself as unconstrained length determinant
+            self.write_bit(true)?;
+            let length = value.checked_add(1).ok_or(ErrorKind::ValueExceedsMaxInt)?;
+            self.write_length_determinant(None, None, length).map(drop)
+        }
     }
 
     /// ITU-T X.691 | ISO/IEC 8825-2:2015, chapter 11.9.4
@@ -776,7 +793,7 @@ impl<T: BitWrite> PackedWrite for T {
 
         if out_of_range {
             if extensible {
-                self.write_normally_small_length(index - std_variants)
+                self.write_normally_small_non_negative_whole_number(index - std_variants)
             } else {
                 Err(ErrorKind::InvalidChoiceIndex(index, std_variants).into())
             }
